@@ -404,6 +404,18 @@ def main():
         res["target"], res["bounds"] = "", ""
         run_walk(tier, funcs, index, enums, res, text)
         run_prune(tier, funcs, index, enums, res, text)
+        import c02_walk
+        r = c02_walk.explore_sorted(funcs, index, enums, text)
+        res["functions_executed"].update(r.pop("functions_executed"))
+        for v in r.pop("violations"):
+            res["violations"].append({"key": "sorted | comparator", "summary": v["what"], "replayer": "prune_dirs", "what": v["what"]})
+        for k, c in r.pop("unsupported").items():
+            res["unsupported"][k] = res["unsupported"].get(k, 0) + c
+        r["bound"] = "-sorted comparator on %d x %d names" % (len(c02_walk.SORT_NAMES), len(c02_walk.SORT_NAMES))
+        r["inputs_covered"] = r.pop("checks")
+        res["runs"].append(r)
+        res["target"] += "; the comparator closure process_dir hands to WalkDir::sort_by, from MIR"
+        res["bounds"] += "; -sorted: every ordered pair of the names %r is ordered byte-wise" % c02_walk.SORT_NAMES
     elif prop == "C15":
         run_newer_names(tier, funcs, index, enums, res)
     elif prop == "C14":
